@@ -61,6 +61,7 @@ def run(check: Check, repo: Repo, tier: str) -> None:
     T.index_guard(check, repo, pmods)
     check.floor("INDEX-GUARD", 15, "constant-position reads on the validation / coercion path")
     T.next_total(check, repo, pmods)
+    T.row_alloc(check, repo)
     from rules import type_witness as TW
     tmods = [m for m in repo.modules.values() if not m.name.endswith(".version") and ".rules.custom" not in m.name]
     TW.type_witness(check, repo, tmods)
